@@ -10,6 +10,7 @@ import VaxisModel.Model.ImageDraw
 import VaxisModel.Gen.ImageFlow
 import VaxisModel.Lemmas.ImageFlowExpected
 import VaxisModel.Lemmas.Window
+import VaxisModel.Lemmas.Placements
 
 namespace VaxisModel.Props.C20Ext
 open VaxisModel.Model.ImageFit VaxisModel.Model.ImageTerm VaxisModel.Spec.Images VaxisModel.Gen.ImageConsts
@@ -422,10 +423,18 @@ open VaxisModel.Gen VaxisModel.Lemmas in
 theorem facts_block_draw :
     ImageFlow.halfDraw = ImageFlowExpected.halfDraw ∧ ImageFlow.fullDrawLoop = ImageFlowExpected.fullDrawLoop := by decide +kernel
 
-open VaxisModel.Gen VaxisModel.Lemmas in
-/-- The placement loops of `render` (= `Model.Placements.renderWith`: delete on refresh or when no same placement follows,
-    empty the last list on refresh, write unless a same placement was there, `last = next`). -/
-theorem facts_render_placement_loops :
-    ImageFlow.renderPlacementLoops = ImageFlowExpected.renderPlacementLoops := by decide +kernel
+/-- **The placement loops of `render` as regenerated** (statement skeleton, interpreted by `Model.Placements.renderShaped`):
+    every statement is there and nothing else is — delete-and-continue on refresh, skip when a same placement follows,
+    delete; empty the last list on refresh; skip when a same placement was there, move the cursor and write;
+    `last = next` — so the interpreted step the driver runs is the `step` about which `placement_diff` speaks. -/
+theorem render_shape :
+    renderShape = ⟨true, true, true, true, true, true, true, []⟩ ∧
+    ∀ s op, VaxisModel.Model.Placements.stepGen s op = VaxisModel.Model.Placements.step s op := by
+  have h : renderShape = ⟨true, true, true, true, true, true, true, []⟩ := by decide
+  refine ⟨h, ?_⟩
+  intro s op
+  unfold VaxisModel.Model.Placements.stepGen VaxisModel.Model.Placements.step
+  rw [h]
+  exact VaxisModel.Lemmas.Placements.stepShaped_std _ s op
 
 end VaxisModel.Props.C20Ext
